@@ -17,7 +17,7 @@ import Tickit.Driver.Common
   property: the dictionary then adopts whatever value the implementation reads back (presence is still checked).
 -/
 namespace Tickit.Driver.PenEngine
-open Tickit Tickit.Driver Tickit.Gen.PenLayout
+open Tickit Tickit.Bitfield Tickit.Driver Tickit.Gen.PenLayout
 
 def NPEN : Nat := 3
 def DUMP_ATTRS : Nat := 12
@@ -184,15 +184,15 @@ def checkEquiv (dicts : Array PenDict) (o : Obs) : String :=
 
 /-! #### the documented grammar of colour descriptions (man/tickit_pen_get_colour_attr.3) -/
 
-def isHexDigit (c : UInt8) : Bool := Scan.isXDigit c
+def isHexDigit (c : UInt8) : Bool := PenScan.isXDigit c
 
 /-- `#` + exactly six hexadecimal characters. -/
 def docRgb? (s : List UInt8) : Option RGB8 :=
   match s with
   | [35, a, b, c, d, e, f] =>
     if [a, b, c, d, e, f].all isHexDigit then
-      some ⟨UInt8.ofNat (Scan.xval a * 16 + Scan.xval b), UInt8.ofNat (Scan.xval c * 16 + Scan.xval d),
-            UInt8.ofNat (Scan.xval e * 16 + Scan.xval f)⟩
+      some ⟨UInt8.ofNat (PenScan.xval a * 16 + PenScan.xval b), UInt8.ofNat (PenScan.xval c * 16 + PenScan.xval d),
+            UInt8.ofNat (PenScan.xval e * 16 + PenScan.xval f)⟩
     else none
   | _ => none
 
@@ -201,7 +201,7 @@ def docRgb? (s : List UInt8) : Option RGB8 :=
 def docBase? (s : List UInt8) : Option Int :=
   let isHi := s.take 3 == Pen.hiPrefix
   let body := if isHi then s.drop 3 else s
-  if !isHi ∧ !body.isEmpty ∧ body.length ≤ 9 ∧ body.all Scan.isDigit then
+  if !isHi ∧ !body.isEmpty ∧ body.length ≤ 9 ∧ body.all PenScan.isDigit then
     some (Int.ofNat (body.foldl (fun acc d => acc * 10 + (d.toNat - 48)) 0))
   else match Pen.colourNames.find? (fun e => e.1 == body) with
     | some e => if isHi then (if e.2 < 8 then some (e.2 + 8) else none) else some e.2
